@@ -4,9 +4,11 @@ import GoblVerif.Props.C02
 import GoblVerif.Props.C03
 import GoblVerif.Props.C04
 import GoblVerif.Props.C05
+import GoblVerif.Props.C06
 import GoblVerif.Props.C07
 import GoblVerif.Props.C08
 import GoblVerif.Props.C12
 import GoblVerif.Props.C17
 import GoblVerif.Props.C18
 import GoblVerif.Props.C19
+import GoblVerif.Props.C20
